@@ -22,6 +22,10 @@ class Spec:
     replayable: bool = True  # False: atoms of stubbed callees -> model cannot be replayed natively
     witness: object = None  # optional fn(rng, label) -> dict|None : native witness search for stub-based contracts
     notes: str = ""
+    normal_form: bool = False  # try the canonical polynomial normal form (vk.sym.Expander) on equalities before SMT
+    nf_limit: int = 200000
+    soft: tuple = ()  # label globs: if the solvers cannot decide these, a passing native witness search stands in (reported as bounded, never as discharged)
+    soft_timeout: float = 30.0
 
 
 def contract(prop, name, **kw):
